@@ -88,7 +88,10 @@ namespace rkcommon {
             RKCOMMON_VERIF_POINT("loop.after_running_check", l.get());
             l->insideLoopBody = true;
             RKCOMMON_VERIF_POINT("loop.published", l.get());
-            fcn();
+            // re-check after publishing insideLoopBody: a stop() that cleared
+            // the flag since the check above may already have returned
+            if (l->shouldBeRunning)
+              fcn();
             RKCOMMON_VERIF_POINT("loop.after_body", l.get());
             l->insideLoopBody = false;
             RKCOMMON_VERIF_POINT("loop.unpublished", l.get());
